@@ -8,6 +8,7 @@ import re
 import struct
 from fractions import Fraction
 from vlib import core
+from checks import _tmpl_streams as T
 
 META = {
     "property_id": "C04",
@@ -847,6 +848,8 @@ def run(ctx):
     gen.stream_c()
     gen.stream_d()
     gen.stream_e()
+    nz = T.c04_zero_divisors(gen)        # stream Z: zero divisors of every origin incl. Real -0.0 (round c)
+    ctx.notes.append("stream Z: %d expressions dividing by a zero (literal / variable / computed, +0 and -0)" % nz)
     exprs = gen.exprs
     ctx.notes.append("corpus lines: %d; generated expressions: %d; candidates rejected by the 64-bit-safe filter: %d" % (ncorpus, len(exprs), gen.rejected))
 
@@ -935,6 +938,7 @@ def run(ctx):
     for name, n in sorted(gap_n.items()):
         ctx.count("known-model-gap:" + name, n, n)
 
+    T.c04_zero_divisor_oracle(ctx, exprs, meta, lines, impl, model, units_of, split_model)
     # ---- S3: the exact reference evaluator on the generated structure -------------------------------
     p_out = {}
     for i, (k, mode) in enumerate(meta):
